@@ -122,6 +122,6 @@ def replay(data):
     inp = data.get("input")
     if not inp:
         print(json.dumps(data.get("broken_links"))[:2000]); return 1
-    op = "c02_orbit" if len(inp) == 3 else "c02_distinct"
+    op = "c02_orbit" if len(inp) >= 3 else "c02_distinct"
     print(run_impl([(op, inp)])[0])
     return 1
